@@ -1640,7 +1640,8 @@ class Translator:
             self.deps.add(last[1])
             # a public setter of a child object of unknown class: `call f` (the tag survives as third component;
             # every pass that looks at kinds treats the pair as mayRaise + mutate, the Lean emission fuses it)
-            return seq([('mayRaise',), ('mutate', f, 'call') if last[1] in TARGET_MEMBERS else ('mutate', f)])
+            return seq([('mayRaise', 'call'), ('mutate', f, 'call')] if last[1] in TARGET_MEMBERS
+                       else [('mayRaise',), ('mutate', f)])
         return ('mutate', f)
 
     def write_other(self, t, root, rk, ops, env):
@@ -1885,7 +1886,7 @@ class Translator:
             return [('mutate', fld)]
         if m in CHILD_MUTATORS:
             self.deps.add(m)
-            return [('mayRaise',), ('mutate', fld, 'call') if m in TARGET_MEMBERS else ('mutate', fld)]
+            return [('mayRaise', 'call'), ('mutate', fld, 'call')] if m in TARGET_MEMBERS else [('mayRaise',), ('mutate', fld)]
         raise Unsupported('%s:%d: unclassified method %s on field %s' % (env.file, e.lineno, m, fld))
 
     def parse_call(self, e, env):
@@ -2040,7 +2041,7 @@ def lean_term(s, fi, gi, ind=2):
         fused, xs = [], list(s[1])
         while xs:
             x = xs.pop(0)
-            if x == ('mayRaise',) and xs and xs[0][0] == 'mutate' and len(xs[0]) == 3 and xs[0][2] == 'call':
+            if x == ('mayRaise', 'call') and xs and xs[0][0] == 'mutate' and len(xs[0]) == 3 and xs[0][2] == 'call':
                 fused.append(('call', xs.pop(0)[1]))
             else:
                 fused.append(x)
@@ -2062,7 +2063,7 @@ def count_calls(b):
     if k == 'seq':
         n = 0
         for i, x in enumerate(b[1]):
-            if x[0] == 'mutate' and len(x) == 3 and i and b[1][i - 1] == ['mayRaise']:
+            if x[0] == 'mutate' and len(x) == 3 and i and b[1][i - 1][:2] == ['mayRaise', 'call']:
                 n += 1
             else:
                 n += count_calls(x)
@@ -2074,6 +2075,30 @@ def count_calls(b):
     if k == 'ifFlag':
         return count_calls(b[2]) + count_calls(b[3])
     return 0
+
+
+def call_marks(b, acc=None):
+    """line ids of the statements that contain a `call f` (the nearest mark before it in the same sequence)"""
+    acc = set() if acc is None else acc
+    k = b[0]
+    if k == 'seq':
+        last = None
+        for x in b[1]:
+            if x[0] == 'mark':
+                last = x[1]
+            elif x[:2] == ['mayRaise', 'call'] and last is not None:
+                acc.add(last)
+            else:
+                call_marks(x, acc)
+    elif k in ('choice', 'tryCatch', 'tryFinally', 'loop'):
+        call_marks(b[1], acc)
+        call_marks(b[2], acc)
+    elif k == 'scope':
+        call_marks(b[1], acc)
+    elif k == 'ifFlag':
+        call_marks(b[2], acc)
+        call_marks(b[3], acc)
+    return acc
 
 
 def ident(name):
@@ -2092,7 +2117,12 @@ def numbered(body, fi, gi):
     if k == 'ifFlag':
         return [k, gi[body[1]], numbered(body[2], fi, gi), numbered(body[3], fi, gi)]
     if k == 'seq':
-        return [k, [numbered(x, fi, gi) for x in body[1]]]
+        xs = [numbered(x, fi, gi) for x in body[1]]
+        for i in range(1, len(xs)):
+            # the decision taken at a `call f` site is marked as such (third component: the field)
+            if xs[i][0] == 'mutate' and len(xs[i]) == 3 and xs[i][2] == 'call' and xs[i - 1] == ['mayRaise', 'call']:
+                xs[i - 1] = ['mayRaise', 'call', xs[i][1]]
+        return [k, xs]
     if k in ('choice', 'tryCatch', 'tryFinally', 'loop'):
         return [k, numbered(body[1], fi, gi), numbered(body[2], fi, gi)]
     if k in ('scope',):
@@ -2158,6 +2188,7 @@ def generate(repo):
     members = {}
     for r in recs:
         members.setdefault(r['member'], []).append(r['name'])
+        r['callmarks'] = sorted(call_marks(r['body']))
     lines.append('/-- per script: the child mutators it calls (`call f` sites, recorded by member name because the class of the')
     lines.append('child is not known statically) and, per name, the extracted scripts with that member name -/')
     lines.append('def callDeps : List (String × List (String × List String)) := [')
